@@ -46,6 +46,9 @@ type X struct {
 	Addr   bool
 	// Cell is the variable cell this value was loaded from, if any.
 	Cell *ssa.Alloc
+	// Env is set on copies made by subst: the parameter bindings of the helper this node comes from, so that facts
+	// looked up later for the node (phi edges) can be put in the same terms.
+	Env map[ssa.Value]*X
 }
 
 func (x *X) String() string {
